@@ -2,6 +2,7 @@ import Tahoe.Base.LemmasMerkleComplete
 import Tahoe.Base.LemmasMerkleOrder
 import Tahoe.Base.LemmasMerkleClosed
 import Tahoe.Base.LemmasMerkleBuild
+import Tahoe.Base.LemmasMerkleStray
 /-! C35 — Merkle hash trees accept only genuine leaves (hashtree.py `IncompleteHashTree.set_hashes`).
 
 Vocabulary (Tahoe/Base/Merkle.lean): `Genuine ops T` — `T` is a fully populated Merkle tree; `Agree t T` — the
@@ -157,6 +158,48 @@ theorem order_irrelevant (ops : HashOps H) (cfg : Cfg) (hstrict : StrictPresence
   refine ⟨⟨fun h => ?_, fun h => ?_⟩, key pick1 pick2⟩
   · rw [key pick1 pick2 h]; exact h
   · rw [key pick2 pick1 h]; exact h
+
+/-! ### the whole input domain: batches with arbitrary Python-int keys (`setHashesZ`)
+
+`hashes` / `leaves` may carry stray node numbers: negative ones (list indexing aliases `-len ≤ i < 0` onto real
+slots, and `depth_of` files them under the deepest level, where they can never be validated), numbers `≥ len`,
+nodes off the chain — in any dict order relative to forged or genuine entries. -/
+
+/-- **rollback, any batch**: whatever int keys and values the batch holds and in whatever order, if it is not
+    accepted the list is exactly the input list (repaired code: IndexError is rolled back too). -/
+theorem rollback_any_batch (ops : HashOps H) (cfg : Cfg) (hstrict : StrictPresence ops cfg)
+    (hcatch : cfg.catchIndex = true) (pick : List Nat → Nat) (first : Nat) (t : Tree H)
+    (hashes leaves : List (Int × H)) (o : BatchOutcome) (t' : Tree H)
+    (h : setHashesZ ops cfg pick first t hashes leaves = (o, t')) (hne : o ≠ .ok) : t' = t :=
+  setHashesZ_rollback hstrict hcatch pick first t hashes leaves h hne
+
+/-- **sound, any batch**: an accepted batch with arbitrary int keys keeps the tree in agreement with `T`. -/
+theorem sound_any_batch (ops : HashOps H) (cfg : Cfg) (hstrict : StrictPresence ops cfg)
+    (hinj : PairInjective ops) (T t : Tree H) (hT : Genuine ops T) (hlen : t.length = T.length)
+    (hagree : Agree t T) (hroot : Base.Merkle.get t 0 ≠ none) (pick : List Nat → Nat) (first : Nat)
+    (hashes leaves : List (Int × H)) (t' : Tree H)
+    (h : setHashesZ ops cfg pick first t hashes leaves = (.ok, t')) : Agree t' T :=
+  setHashesZ_sound hstrict hinj hT hlen hagree hroot pick first hashes leaves h
+
+/-- on batches whose keys are natural numbers the int-key model is the model of the theorems above -/
+theorem int_keys_conservative (ops : HashOps H) (cfg : Cfg) (pick : List Nat → Nat) (first : Nat) (t : Tree H)
+    (hashes leaves : List (Nat × H)) :
+    setHashesZ ops cfg pick first t (castKeys hashes) (castKeys leaves) =
+      (toBatch (setHashes ops cfg pick first t hashes leaves).1, (setHashes ops cfg pick first t hashes leaves).2) :=
+  setHashesZ_castKeys ops cfg pick first t hashes leaves
+
+/-- stray keys on a two-leaf tree holding its root: a forged node followed by `-1` (aliases the empty last
+    slot), `-1` first, a key beyond the tree, a negative key below `-len`, a negative leaf number — all
+    rejected, nothing left behind; `-1` carrying the value already stored in the slot it aliases is a no-op -/
+example :
+    let t : Tree Sym := [some (Sym.pair (Sym.atom 0) (Sym.atom 1)), none, none]
+    setHashesZ symOps Cfg.repaired (fun _ => 0) 1 t [(1, Sym.atom 1001), (-1, Sym.atom 1396)] [] = (.unvalidatable, t) ∧
+    setHashesZ symOps Cfg.repaired (fun _ => 0) 1 t [(-1, Sym.atom 1396), (1, Sym.atom 1001)] [] = (.unvalidatable, t) ∧
+    setHashesZ symOps Cfg.repaired (fun _ => 0) 1 t [(1, Sym.atom 1001), (3, Sym.atom 5)] [] = (.err .indexError, t) ∧
+    setHashesZ symOps Cfg.repaired (fun _ => 0) 1 t [(1, Sym.atom 1001), (-4, Sym.atom 5)] [] = (.err .indexError, t) ∧
+    setHashesZ symOps Cfg.repaired (fun _ => 0) 1 t [(1, Sym.atom 1001)] [(-2, Sym.atom 5)] = (.unvalidatable, t) ∧
+    setHashesZ symOps Cfg.repaired (fun _ => 0) 1 t [(-3, Sym.pair (Sym.atom 0) (Sym.atom 1))] [] = (.ok, t) := by
+  decide
 
 /-! ### the hypotheses are satisfiable, and a concrete instance -/
 
